@@ -222,8 +222,20 @@ Fixpoint adjacent_dup (l : list node) : bool :=
   | x :: ((y :: _) as t) => equal x y || adjacent_dup t
   | _ => false
   end.
+(* the scan over the sorted copy, with the loop parameters of the source (Gen/Common.v):
+     for (i = FIRST; i < count - SUB; i++) if (equal (temp[i + L], temp[i + R])) ... *)
+Definition window_dup (first sub la ra : Z) (l : list node) : bool :=
+  let n := Z.of_nat (List.length l) in
+  existsb (fun k => let i := first + Z.of_nat k in
+                    match nth_error l (Z.to_nat (i + la)), nth_error l (Z.to_nat (i + ra)) with
+                    | Some x, Some y => equal x y
+                    | _, _ => false
+                    end)
+          (seq 0 (Z.to_nat (n - sub - first))).
+Definition sorted_scan (l : list node) : bool :=
+  window_dup SORTED_SCAN_FIRST SORTED_SCAN_BOUND_SUB SORTED_SCAN_LEFT SORTED_SCAN_RIGHT l.
 Definition dup_sorted (l : list node) : bool :=
-  if forallb sort_comparable l then adjacent_dup (sort l) else dup_linear l.
+  if forallb sort_comparable l then sorted_scan (sort l) else dup_linear l.
 
 (* open addressing with linear probing; table as a list of optional (node, hash) *)
 (* load factor and first size are the literals of the source (Gen/Common.v) *)
